@@ -194,6 +194,23 @@ def run(ctx: Ctx):
                                "stage": float(pe_stage[k_]), "tau_exit_prob": float(pe_direct[k_]), "events_differing": int(len(bad))})
         except Exception as ex:  # noqa
             ctx.violation("Taus.__call__", "stage-raises", f"{type(ex).__name__}: {str(ex)[:120]}", {"version": v})
+        # ---------------- the same events as a 2-d scan grid in several memory layouts (C order, transposed view, Fortran order)
+        b2_ = rng.uniform(0.0, 1.2, (6, 9)); l2_ = rng.uniform(gE[0], gE[-1], (6, 9))
+        ref2_ = make_taus(v).tau_exit_prob(b2_.ravel().copy(), l2_.ravel().copy()).reshape(6, 9)
+        for nm_, tf in (("C-ordered 2-d", lambda a: a.copy()), ("transposed view", lambda a: np.ascontiguousarray(a.T).T), ("Fortran order", np.asfortranarray)):
+            ctx.case(("layout", v, nm_), None); ctx.count("memory_layouts")
+            try:
+                P2 = np.asarray(make_taus(v).tau_exit_prob(tf(b2_), tf(l2_)))
+                ok_ = P2.shape == (6, 9) and np.array_equal(P2, ref2_)
+                err = None
+            except Exception as ex:  # noqa
+                ok_, err = False, f"{type(ex).__name__}: {str(ex)[:100]}"
+            if not ok_:
+                ctx.violation("Taus.tau_exit_prob", "depends-on-the-memory-layout",
+                              f"a (6, 9) grid of events given as {nm_} arrays does not give the values of the same events given as 1-d arrays" + (f" ({err})" if err else ""),
+                              {"version": v, "layout": nm_, "beta[0,1]": float(b2_[0, 1]), "log_e_nu[0,1]": float(l2_[0, 1]), "expected[0,1]": float(ref2_[0, 1]),
+                               "got[0,1]": (float(P2[0, 1]) if err is None and P2.shape == (6, 9) else None)})
+                break
         # ---------------- the documented range [6, 12] itself (nominal numbers, not the file's own axis values): defined, in (0,1]
         nominal = np.arange(6.0, 12.0 + 1e-9, 0.25)
         bn = np.array([0.0, float(gB[0]), 0.3, float(gB[-1]), 1.2])
